@@ -108,3 +108,42 @@ def invalid_violation(strat, seq, reasons, **extra):
                                                                                json.dumps(seq)[:400])}
     v.update(extra)
     return v
+
+
+# ------------------------------------------------------------------ running strategies with the right guard
+
+class SoftTimeout(BaseException):
+    pass
+
+
+def run_strategy(spec, strat, n, timeout=25, strict=True):
+    """Fresh build + synthesize_trials. Pure-Python strategies run in-process under an interval timer, strategies
+    that enter native sampling code (UniGen, UniformGen, SMGen) run in a forked child with a hard limit.
+    -> (sequences|None, excinfo|None, status) ; status in ok | timeout | died | ctor"""
+    import signal
+    if strat in ("UniGen", "UniformGen", "SMGen"):
+        return O.synth_guarded(spec, n, strat, timeout, strict)
+    b, pool, e = O.construct(spec, strict)
+    if e:
+        return None, e, "ctor"
+
+    def on_alarm(signum, frame):
+        raise SoftTimeout()
+    old = signal.signal(signal.SIGVTALRM, on_alarm)
+    signal.setitimer(signal.ITIMER_VIRTUAL, timeout)
+    try:
+        r, err, out = O.synth(b, n, strat)
+        return r, err, "ok"
+    except SoftTimeout:
+        return None, None, "timeout"
+    finally:
+        signal.setitimer(signal.ITIMER_VIRTUAL, 0)
+        signal.signal(signal.SIGVTALRM, old)
+
+
+def exhaust(spec, strat, cap, timeout=25):
+    """Ask for cap+1 sequences. -> (sequences|None, excinfo|None, status) ; status 'too_big' when more than cap."""
+    r, err, st = run_strategy(spec, strat, cap + 1, timeout)
+    if st == "ok" and r is not None and len(r) > cap:
+        return r, None, "too_big"
+    return r, err, st
